@@ -60,8 +60,9 @@ Qed.
 
 Lemma postb_take_n : forall n, postb (fun l => bytes_ok l /\ length l = n) (take_n n).
 Proof.
-  intros n bs a r Hb E. unfold run, take_n in E. destruct (n <=? length bs)%nat eqn:L; cbn [fst] in E; [|discriminate].
-  inversion E; subst. split. apply firstn_ok; auto. apply firstn_length_le. apply Nat.leb_le; auto.
+  intros n bs a r Hb E. unfold run, take_n in E. destruct (take_nat n bs) as [[p q]|] eqn:T; cbn [fst] in E; [|discriminate].
+  inversion E; subst. apply take_nat_some in T. destruct T as [-> Hl]. split; auto.
+  apply Forall_app in Hb. tauto.
 Qed.
 
 Lemma postb_u64 : postb (fun x => u64b x = true) de_u64.
@@ -134,7 +135,7 @@ Qed.
 Lemma postb_list : forall A (P : A -> bool) (elem : M A) n, postb (fun x => P x = true) elem -> pre elem ->
   postb (fun l => forallb P l = true /\ len_N l = n) (de_list elem n).
 Proof.
-  intros A P elem n He Hp bs a r Hb E. unfold de_list in E. change (run (de_list_go elem (S (length bs)) n) bs = Ok (a, r)) in E.
+  intros A P elem n He Hp bs a r Hb E. unfold de_list in E. change (run (de_list_go elem (list_fuel bs n) n) bs = Ok (a, r)) in E.
   eapply postb_list_go; eauto.
 Qed.
 
@@ -164,13 +165,10 @@ Lemma postb_str : postb (fun s => strb (c_cap c) s = true) (de_str c).
 Proof.
   unfold de_str, de_usize. eapply postb_bind; [apply postb_u64 | auto with pre |]. intros n Hu; cbv beta in Hu.
   eapply postb_bind; [apply postb_alloc | apply pre_alloc |]. intros u Hn; cbv beta in Hn.
-  intros bs a r _ E. unfold run in E. destruct (n <=? len_N bs) eqn:L; cbn [fst] in E; [|discriminate].
-  cbv zeta in E. destruct (utf8_valid (firstn (N.to_nat n) bs)) eqn:U; cbn [fst] in E; [|discriminate].
-  inversion E; subst. unfold strb. rewrite U. cbn [andb]. unfold fits.
-  apply N.leb_le in L. unfold len_N in *.
-  replace (N.of_nat (length (firstn (N.to_nat n) bs))) with n.
-  2:{ rewrite firstn_length_le by lia. rewrite N2Nat.id. reflexivity. }
-  apply fitn_intro; auto.
+  intros bs a r _ E. unfold run in E. destruct (split_n bs n) as [[s0 q]|] eqn:S0; cbn [fst] in E; [|discriminate].
+  destruct (utf8_valid s0) eqn:U; cbn [fst] in E; [|discriminate].
+  inversion E; subst. apply split_n_some in S0. destruct S0 as [_ Hl].
+  unfold strb. rewrite U. cbn [andb]. unfold fits. rewrite Hl. apply fitn_intro; auto.
 Qed.
 Lemma postb_ident : postb (fun s => strb (c_cap c) s = true) (de_ident c).
 Proof.
